@@ -63,4 +63,7 @@ def run(tier, prop="C01", opts=None):
     ck.extra["programs"] = n
     ck.extra["rustc_rejected_programs"] = len(rejected)
     ck.assumptions = ["reference functions are rendered from the spec's designations, independently of the DSL rendering", "rustc and the real proc-macro bridge are the execution platform"]
+    if tier == "thorough":
+        from vlib import cov
+        cov.report(ck, "C01", cov.derive_inputs([x for sc in specs.values() for x in sc.inputs.values()]))
     return ck.finish()
